@@ -166,6 +166,20 @@ type jstep struct {
 	After []jmsg `json:"after,omitempty"`
 	// Ctr: SQLite only — the trigger-maintained (queued, leased) counters the admission test reads, after the step
 	Ctr []int `json:"ctr,omitempty"`
+	// Ord: memory only — the store's scan list (`MemoryStore.order`) after the step
+	Ord *[]string `json:"ord,omitempty"`
+}
+
+// order reads the memory store's scan list (nil on SQLite)
+func (b *backend) order() *[]string {
+	if b.mem == nil {
+		return nil
+	}
+	o := b.mem.VerifOrder()
+	if o == nil {
+		o = []string{}
+	}
+	return &o
 }
 
 // counters reads the SQLite store's queue_counters row (nil on the memory backend)
@@ -640,6 +654,44 @@ type qgen struct {
 	tsBase  int64
 	marks   []int64 // instants worth landing on: lease ends as they were before an extend, nack times, ...
 	forced  bool    // lock-step: prefer dequeues whose choice is forced (batch >= ready)
+	// prefix: scripted steps (clock advance, operation) played before the generated ones
+	prefix []scripted
+}
+
+type scripted struct {
+	adv int64
+	op  jop
+}
+
+// restartWithLivePrefix: a process restart while a consumer holds an unexpired lease (SQLite). The lease must survive the
+// restart (C03: nobody else is handed the message while it runs), and once it has run out the message must be offered again
+// — also when the restarted process has not handed out a lease itself in the meantime (C05; round-5 C05-m1) and when it has
+// (variant with a second, ready message).
+func (g *qgen) restartWithLivePrefix() []scripted {
+	r := g.r
+	sec := int64(time.Second)
+	ttl := sec * int64(5+r.intn(56))
+	id := func() string { g.nextID++; return fmt.Sprintf("rs%d", g.nextID) }
+	held := id()
+	p := []scripted{
+		{0, jop{T: "enqueue", E: &jenv{ID: held, Route: "/r1", Target: "pull", Payload: "aa"}}},
+		{int64(r.intn(3)) * sec, jop{T: "dequeue", Route: "/r1", Target: "pull", Batch: 1, TTL: ttl}},
+	}
+	other := r.chance(50)
+	if other {
+		p = append(p, scripted{sec, jop{T: "enqueue", E: &jenv{ID: id(), Route: "/r1", Target: "pull", Payload: "bb"}}})
+	}
+	p = append(p,
+		scripted{sec, jop{T: "restart"}},
+		// right after the restart: only what is ready may be handed out, the held message is not
+		scripted{int64(r.intn(2)) * sec, jop{T: "dequeue", Route: "/r1", Target: "pull", Batch: 5, TTL: 30 * sec}},
+	)
+	if r.chance(30) {
+		p = append(p, scripted{sec, jop{T: "restart"}})
+	}
+	// the lease runs out (plus more than a sweep interval): the held message must be offered again
+	p = append(p, scripted{ttl + int64(20*time.Millisecond), jop{T: "dequeue", Route: "/r1", Target: "pull", Batch: 5, TTL: 30 * sec}})
+	return p
 }
 
 var routes = []string{"/r0", "/r1", "/r2"}
@@ -1054,6 +1106,10 @@ func (g *qgen) genLeaseOp(kind int, durs []int64) jop {
 type bulkScript struct {
 	phase, n int
 	held     []string
+	// parked: ids put into a terminal state (canceled / dead) before the drain and brought back after it — by then the memory
+	// store has compacted its scan list several times (round-5 C05-m2: a compaction that keeps only what a scan can use now)
+	parked []string
+	first  int
 }
 
 func (b *bulkScript) leasedNow(g *qgen, except []string) ([]string, []lsym) {
@@ -1089,12 +1145,35 @@ func (b *bulkScript) next(g *qgen) (jop, bool) {
 			es = append(es, jenv{ID: fmt.Sprintf("b%d", g.nextID), Route: "/r0", Target: "pull", Payload: "00"})
 			g.nextID++
 		}
+		if b.n == 0 {
+			b.first = g.nextID - 100
+		}
 		b.n++
 		if b.n == 12 {
-			b.phase, b.n = 1, 0
+			b.phase, b.n = 10, 0
 		}
 		g.clock.now += int64(r.intn(50)) * int64(time.Millisecond)
 		return jop{T: "enqueue_batch", Es: es}, true
+	case 10: // an operator cancels two of the oldest …
+		b.phase = 11
+		ids := []string{fmt.Sprintf("b%d", b.first+1), fmt.Sprintf("b%d", b.first+3)}
+		b.parked = append(b.parked, ids...)
+		return jop{T: "cancel", IDs: ids}, true
+	case 11: // … and a consumer takes two and dead-letters them
+		b.phase = 12
+		return jop{T: "dequeue", Route: "/r0", Target: "pull", Batch: 2, TTL: 600 * sec}, true
+	case 12:
+		b.phase = 1
+		ids, syms := b.leasedNow(g, nil)
+		for _, m := range g.snap {
+			if m.St == "leased" {
+				b.parked = append(b.parked, m.ID)
+			}
+		}
+		if len(ids) == 0 {
+			return jop{T: "stats"}, true
+		}
+		return jop{T: "mark_dead_batch", Ls: ids, Lsyms: syms, R: "manual"}, true
 	case 1: // a consumer takes a few and dies
 		b.phase = 2
 		return jop{T: "dequeue", Route: "/r0", Target: "pull", Batch: 4, TTL: 5 * sec}, true
@@ -1125,6 +1204,12 @@ func (b *bulkScript) next(g *qgen) (jop, bool) {
 		b.phase = 5
 		return jop{T: "stats"}, true
 	case 5: // whatever is left must be offered again
+		b.phase, b.n = 13, 0
+		return jop{T: "dequeue", Route: "/r0", Target: "pull", Batch: 100, TTL: 30 * sec}, true
+	case 13: // the operator brings the parked messages back (requeue acts on dead and canceled) …
+		b.phase = 14
+		return jop{T: "requeue", IDs: b.parked}, true
+	case 14: // … and they must be offered like any other queued message
 		b.phase, b.n = 6, 0
 		return jop{T: "dequeue", Route: "/r0", Target: "pull", Batch: 100, TTL: 30 * sec}, true
 	case 6: // random tail
@@ -1199,6 +1284,9 @@ func (q *qrun) runTrace(traceNo int, seed uint64) error {
 		return err
 	}
 	nops := q.ops
+	if q.backend == "sqlite" && (q.profile == "visible" || q.profile == "lease") && traceNo%3 == 0 && g.cfg.MaxDepth != 1 {
+		g.prefix = g.restartWithLivePrefix()
+	}
 	var bulk *bulkScript
 	if q.profile == "bulk" {
 		bulk = &bulkScript{}
@@ -1212,6 +1300,10 @@ func (q *qrun) runTrace(traceNo int, seed uint64) error {
 			if !more {
 				break
 			}
+		} else if len(g.prefix) > 0 {
+			clock.now += g.prefix[0].adv
+			op = g.prefix[0].op
+			g.prefix = g.prefix[1:]
 		} else {
 			g.advance()
 			op = g.genOp()
@@ -1227,7 +1319,7 @@ func (q *qrun) runTrace(traceNo int, seed uint64) error {
 		if err != nil {
 			return err
 		}
-		st := jstep{K: "step", Now: clock.now, Op: op, Resp: resp, Ctr: b.counters()}
+		st := jstep{K: "step", Now: clock.now, Op: op, Resp: resp, Ctr: b.counters(), Ord: b.order()}
 		if sameSnap(snap, g.snap) {
 			st.Same = true
 		} else {
@@ -1334,7 +1426,7 @@ func (q *qrun) replay(path string) error {
 			if err != nil {
 				return err
 			}
-			out := jstep{K: "step", Now: clock.now, Op: op, Resp: resp, Ctr: b.counters()}
+			out := jstep{K: "step", Now: clock.now, Op: op, Resp: resp, Ctr: b.counters(), Ord: b.order()}
 			if prev != nil && sameSnap(snap, prev) {
 				out.Same = true
 			} else {
